@@ -222,6 +222,13 @@ class AsyncListener:
         answers once more.
         """
         if not msg.truncated:
+            if port != _MDNS_PORT:
+                # A legacy resolver that happens to run on a host whose
+                # truncated mDNS query is being held: not its continuation
+                self._query_handler.handle_assembled_query(
+                    [msg], addr, port, transport, v6_flow_scope, duplicate
+                )
+                return
             self._respond_query(msg, addr, port, transport, v6_flow_scope, duplicate)
             return
 
